@@ -724,6 +724,7 @@ struct WL {
         if (allowed) gsim::freeze_arm(gsim::self(), k);
         a->w->body(a->t);
         gsim::freeze_disarm(gsim::self());
+        gsim::ctr_add(3, 1);
     }
     static void freeze_reader(void* p)
     {
@@ -740,6 +741,8 @@ struct WL {
         int tids[gsim::MAX_THREADS];
         args[0] = FArg{this, 0};
         tids[0] = gsim::spawn(freeze_writer, &args[0]);
+        // the readers start once the writer is parked (or has finished early)
+        while (!gsim::is_frozen(tids[0]) && gsim::ctr_get(3) == 0) gsim::yield();
         for (int t = 1; t < n; t++) {
             args[t] = FArg{this, t};
             tids[t] = gsim::spawn(freeze_reader, &args[t]);
